@@ -2,7 +2,10 @@
 //! please ref the doc from std::sync::mpsc
 use std::fmt;
 use std::panic::{RefUnwindSafe, UnwindSafe};
+#[cfg(not(may_verif))]
 use std::sync::atomic::{AtomicBool, AtomicUsize, Ordering};
+#[cfg(may_verif)]
+use crate::verif::atomic::{AtomicBool, AtomicUsize, Ordering};
 use std::sync::mpsc::{RecvError, RecvTimeoutError, SendError, TryRecvError};
 use std::sync::Arc;
 use std::time::{Duration, Instant};
@@ -10,7 +13,10 @@ use std::time::{Duration, Instant};
 use super::{AtomicOption, Blocker};
 use crate::likely::{likely, unlikely};
 
+#[cfg(not(may_verif))]
 use may_queue::mpsc::Queue;
+#[cfg(may_verif)]
+use crate::verif::Queue;
 
 // TODO: SyncSender
 /// /////////////////////////////////////////////////////////////////////////////
